@@ -448,7 +448,7 @@ def run_dev_history(hist):
 
 def part_dev(ctx, extra):
     rng = ctx.rng
-    n_hist = ctx.n(260, 6000)
+    n_hist = ctx.n(200, 5000)
     cases, meta = [], []
     hists = [c["history"] for c in extra if c.get("part") == "dev"]
     for _ in range(n_hist):
@@ -477,7 +477,7 @@ def part_dev(ctx, extra):
         meta.append(hist)
         if len(ctx.cov["samples"]) < 3:
             ctx.sample({"part": "dev", "states": len(hist), "last_rows": [(k[:-20].decode("utf8", "replace"), d) for k, d in snaps[-1][2]][:6]})
-    bad, log = coq.run_cases(ctx, ["BobV.C16.Model"], "(fun h => h)", "hist_ok", cases, preamble=PRE_DEV, tag="dev", shard=40)
+    bad, log = coq.run_cases(ctx, ["BobV.C16.Model"], "(fun h => h)", "hist_ok", cases, preamble=PRE_DEV, tag="dev", shard=25)
     if bad is None:
         ctx.tie_broken("C16 dev model evaluation failed", log)
         return
@@ -536,7 +536,7 @@ def fresh_state():
 def part_byname(ctx, extra):
     import bob.state
     rng = ctx.rng
-    n_seq = ctx.n(250, 5000)
+    n_seq = ctx.n(200, 4000)
     bases = ["work/a/dist", "work/a/build", "work/a/src", "work/a-b/dist", "work/lib/x/dist", "work/a/dist/", "work/1/dist",
              "work/a/dist/1"]
     cases, meta = [], []
@@ -814,7 +814,7 @@ def fabricate_and_clean(case):
                 spec = ["build-empty"]
         else:
             spec = ["pkg", tag if rng.random() < 0.5 else other]
-        if rng.random() < 0.012:                         # state of the wrong kind stored for the path
+        if rng.random() < 0.012 and kind != "src":       # state of the wrong kind stored for the path
             spec = rng.choice([["pkg", other], ["build", other], ["src", other]])
         if spec is not None:
             bob.state.BobState().setDirectoryState(path, state_obj(spec))
@@ -825,8 +825,10 @@ def fabricate_and_clean(case):
     bob.state.finalize()
     # 3. the SCM-status oracle (external): ask the real function before cleaning
     expendable = []
-    for path, spec in ds_specs:
-        if spec[0] in ("src", "src-scm") and os.path.exists(path):
+    srcish = {path for path, spec in ds_specs if spec[0] in ("src", "src-scm")}
+    srcish |= {os.path.join(d, "workspace") for d, is_src in bob.state.BobState().getAllNameDirectores() if is_src}
+    for path in sorted(srcish):
+        if os.path.exists(path):
             with contextlib.redirect_stdout(io.StringIO()):
                 if clean.checkRegularSource(path, False):
                     expendable.append(path)
@@ -1041,7 +1043,7 @@ def run_clean_case(ctx, case):
 
 def part_clean(ctx, extra):
     rng = ctx.rng
-    n = ctx.n(300, 6000)
+    n = ctx.n(200, 5000)
     cases, meta = [], []
     todo = [c for c in extra if c.get("part") == "clean"] + [gen_clean_case(rng) for _ in range(n)]
     for case in todo:
@@ -1058,7 +1060,7 @@ def part_clean(ctx, extra):
         meta.append(case)
         if deleted and len(ctx.cov["samples"]) < 5:
             ctx.sample({"part": "clean", "argv": ob["argv"], "existing": ob["fs"], "deleted": deleted})
-    bad, log = coq.run_cases(ctx, ["BobV.C16.Model"], "(fun i => i)", "clean_ok", cases, preamble=PRE_CLEAN, tag="clean", shard=40)
+    bad, log = coq.run_cases(ctx, ["BobV.C16.Model"], "(fun i => i)", "clean_ok", cases, preamble=PRE_CLEAN, tag="clean", shard=25)
     if bad is None:
         ctx.tie_broken("C16 clean model evaluation failed", log)
         return
@@ -1080,7 +1082,7 @@ def part_prepare(ctx, extra):
     import bob.state
     from bob.builder import LocalBuilder
     rng = ctx.rng
-    n = ctx.n(200, 3000)
+    n = ctx.n(150, 3000)
     cases, meta = [], []
     for ci in range(n):
         there = rng.choice(["none", "dir", "dir", "dir", "link", "file"])
@@ -1187,8 +1189,432 @@ def run(ctx):
     part_e2e(ctx, extra)
 
 
+# ------------------------------------------------------------------ part e2e: real bob dev / build / clean
+DUMP_HELPER = r"""
+import json, sys, os, io, contextlib
+from bob.input import RecipeSet
+from bob.builder import LocalBuilder
+sandbox = sys.argv[1] == "1"
+recipes = RecipeSet()
+recipes.defineHook('releaseNameFormatter', LocalBuilder.releaseNameFormatter)
+recipes.defineHook('developNameFormatter', LocalBuilder.developNameFormatter)
+recipes.defineHook('developNamePersister', None)
+recipes.setConfigFiles([])
+recipes.parse({})
+packages = recipes.generatePackages(lambda s, p: "unused", sandbox)
+ids, nodes = {}, {}
+def walk(p):
+    k = p._getId()
+    if k in ids: return ids[k]
+    ids[k] = n = len(ids)
+    steps = [p.getCheckoutStep(), p.getBuildStep(), p.getPackageStep()]
+    nodes[n] = {"recipe": p.getRecipe().getName(), "pname": p.getRecipe().getPackageName(),
+                "vids": [s.getVariantId().hex() if s.isValid() else None for s in steps], "deps": []}
+    nodes[n]["deps"] = [walk(d.getPackage()) for d in p.getDirectDepSteps()]
+    return n
+r = walk(packages.getRootPackage())
+exp = []
+if len(sys.argv) > 2:
+    import bob.cmds.build.clean as clean
+    from bob.state import BobState, finalize
+    with contextlib.redirect_stdout(io.StringIO()):
+        for d in json.loads(sys.argv[2]):
+            if clean.checkRegularSource(d, False): exp.append(d)
+    finalize()
+print(json.dumps({"ck": packages.getCacheKey().hex(), "root": r, "nodes": nodes, "expendable": exp}))
+"""
+
+
+def e2e_ident(spec, name, memo=None):
+    """identity of a package variant of the generated project (what its scripts and inputs are)"""
+    memo = {} if memo is None else memo
+    if name in memo:
+        return memo[name]
+    rname, _, suf = name.partition("-")
+    r = spec["recipes"][rname]
+    parts = [rname, str(r["co"]), r["bu"], r["pk"]]
+    if r["multi"]:
+        parts.append(r["multi"][suf])
+    for d in r["deps"]:
+        parts.append(e2e_ident(spec, d, memo))
+    memo[name] = hashlib.sha1("|".join(parts).encode()).hexdigest()[:12]
+    return memo[name]
+
+
+def e2e_pkgnames(spec, rname):
+    r = spec["recipes"][rname]
+    return [rname + "-" + suf for suf in sorted(r["multi"])] if r["multi"] else [rname]
+
+
+def e2e_write(spec, proj, log):
+    rd = os.path.join(proj, "recipes")
+    shutil.rmtree(rd, ignore_errors=True)
+    os.makedirs(rd)
+    with open(os.path.join(proj, "config.yaml"), "w") as f:
+        f.write('bobMinimumVersion: "0.25"\n')
+
+    def scripts(ident, indent):
+        pad = " " * indent
+        return ("%sbuildScript: |\n%s    echo \"BUILD %s $PWD [$(ls -A | tr '\\n' ' ')]\" >> \"%s\"\n%s    touch m-%s\n"
+                "%spackageScript: |\n%s    echo \"PACKAGE %s $PWD [$(ls -A | tr '\\n' ' ')]\" >> \"%s\"\n%s    touch m-%s\n") % (
+                    pad, pad, ident, log, pad, ident, pad, pad, ident, log, pad, ident)
+    with open(os.path.join(rd, "root.yaml"), "w") as f:
+        f.write("root: True\n")
+        if spec["rootdeps"]:
+            f.write("depends:\n" + "".join("    - %s\n" % d for d in spec["rootdeps"]))
+        ident = hashlib.sha1("|".join(["root"] + [e2e_ident(spec, d) for d in spec["rootdeps"]]).encode()).hexdigest()[:12]
+        f.write(scripts(ident, 0))
+    for rname, r in spec["recipes"].items():
+        with open(os.path.join(rd, rname + ".yaml"), "w") as f:
+            if r["co"] is not None:
+                f.write("checkoutScript: |\n    echo %s > src.txt\n" % r["co"])
+            if r["deps"]:
+                f.write("depends:\n" + "".join("    - %s\n" % d for d in r["deps"]))
+            if r["multi"]:
+                f.write("multiPackage:\n")
+                for suf in sorted(r["multi"]):
+                    f.write("    %s:\n" % suf)
+                    f.write(scripts(e2e_ident(spec, rname + "-" + suf), 8))
+            else:
+                f.write(scripts(e2e_ident(spec, rname), 0))
+
+
+def e2e_gen_spec(rng):
+    names = ["a", "b", "lib", "foo", "zed"]
+    rng.shuffle(names)
+    spec = {"recipes": {}, "rootdeps": []}
+    for i, n in enumerate(names[:rng.randint(2, 4)]):
+        multi = {}
+        if rng.random() < 0.4:
+            t = "m%d" % rng.randrange(3)
+            multi = {"x": t, "y": t if rng.random() < 0.5 else "m%d" % rng.randrange(3)}    # twins or not
+        spec["recipes"][n] = {"co": ("c%d" % rng.randrange(3)) if rng.random() < 0.7 else None,
+                              "bu": "b%d" % rng.randrange(3), "pk": "p%d" % rng.randrange(3), "multi": multi, "deps": []}
+    e2e_rewire(rng, spec)
+    return spec
+
+
+def e2e_rewire(rng, spec):
+    order = sorted(spec["recipes"])
+    for i, n in enumerate(order):
+        later = [p for m in order[i + 1:] for p in e2e_pkgnames(spec, m)]
+        spec["recipes"][n]["deps"] = [p for p in later if rng.random() < 0.35][:2]
+    allp = [p for m in order for p in e2e_pkgnames(spec, m)]
+    used = {d for r in spec["recipes"].values() for d in r["deps"]}
+    spec["rootdeps"] = [p for p in allp if p not in used or rng.random() < 0.3]
+    if not spec["rootdeps"]:
+        spec["rootdeps"] = allp[:1]
+
+
+def e2e_edit(rng, spec):
+    spec = json.loads(json.dumps(spec))
+    names = sorted(spec["recipes"])
+    r = rng.random()
+    n = rng.choice(names)
+    rec = spec["recipes"][n]
+    what = "edit"
+    if r < 0.3:
+        rec["bu"] = "b%d" % rng.randrange(6); what = "edit-build"
+    elif r < 0.45:
+        rec["pk"] = "p%d" % rng.randrange(6); what = "edit-package"
+    elif r < 0.55 and rec["co"] is not None:
+        rec["co"] = "c%d" % rng.randrange(6); what = "edit-checkout"
+    elif r < 0.65 and rec["multi"]:
+        suf = rng.choice(sorted(rec["multi"]))
+        rec["multi"][suf] = "m%d" % rng.randrange(4); what = "edit-multi"
+    elif r < 0.75 and len(names) > 2:
+        del spec["recipes"][n]; what = "remove-recipe"
+        e2e_rewire(rng, spec)
+    elif r < 0.85 and len(names) < 5:
+        new = rng.choice([x for x in ["a", "b", "lib", "foo", "zed", "q"] if x not in names])
+        spec["recipes"][new] = {"co": "c0" if rng.random() < 0.6 else None, "bu": "b0", "pk": "p0", "multi": {}, "deps": []}
+        what = "add-recipe"
+        e2e_rewire(rng, spec)
+    else:
+        e2e_rewire(rng, spec); what = "rewire"
+    return spec, what
+
+
+def e2e_bob(proj, args, timeout=180):
+    env = dict(os.environ)
+    env["PYTHONPATH"] = os.path.join(core.REPO, "pym")
+    env.pop("BOB_VERIF", None)
+    r = subprocess.run([PY, os.path.join(core.REPO, "bob")] + args, cwd=proj, env=env, stdout=subprocess.PIPE,
+                       stderr=subprocess.STDOUT, text=True, timeout=timeout)
+    return r.returncode, r.stdout
+
+
+def e2e_dump(proj, sandbox, exp_dirs=None):
+    env = dict(os.environ)
+    env["PYTHONPATH"] = os.path.join(core.REPO, "pym")
+    args = [PY, "-c", DUMP_HELPER, "1" if sandbox else "0"]
+    if exp_dirs is not None:
+        args.append(json.dumps(exp_dirs))
+    r = subprocess.run(args, cwd=proj, env=env, stdout=subprocess.PIPE, stderr=subprocess.PIPE, text=True, timeout=180)
+    if r.returncode != 0:
+        raise RuntimeError("dump helper failed: " + r.stderr[-800:])
+    d = json.loads(r.stdout.strip().split("\n")[-1])
+    for n in d["nodes"].values():
+        n["vids"] = [None if v is None else bytes.fromhex(v) for v in n["vids"]]
+    return d
+
+
+def e2e_state(proj):
+    """persisted bob state of the project: by-name table, directory states, develop dirs table, workspaces on disk"""
+    st = {"bn": [], "ds": [], "db": (None, [])}
+    p = os.path.join(proj, ".bob-state.pickle")
+    if os.path.exists(p):
+        with open(p, "rb") as f:
+            raw = pickle.load(f)
+        st["bn"] = list(raw.get("byNameDirs", {}).items())
+        st["ds"] = list(raw.get("dirStates", {}).items())
+    st["db"] = read_devdb(os.path.join(proj, ".bob-dev-dirs.sqlite3"))
+    cands = [d for d, _ in st["ds"]] + [os.path.join(v[0], "workspace") for k, v in st["bn"] if isinstance(v, tuple)]
+    st["fs"] = sorted({d for d in cands if os.path.exists(os.path.join(proj, d))})
+    ws = []
+    for top in ("dev", "work"):
+        for dp, dn, fn in os.walk(os.path.join(proj, top)):
+            if os.path.basename(dp) == "workspace":
+                ws.append(os.path.relpath(dp, proj))
+                dn[:] = []
+    st["workspaces"] = sorted(ws)
+    return st
+
+
+def coq_tree_e2e(d):
+    nodes = d["nodes"]
+    order, seen = [], set()
+
+    def topo(i):
+        if i in seen:
+            return
+        seen.add(i)
+        for x in nodes[str(i)]["deps"]:
+            topo(x)
+        order.append(i)
+    topo(d["root"])
+    out = []
+    for i in order:
+        n = nodes[str(i)]
+        out.append("let n%d := Pkg %d %s %s %s %s %s %s in" % (
+            i, i, L.s(n["recipe"]), L.s(n["pname"]), *["None" if v is None else "(Some %s)" % L.by(v) for v in n["vids"]],
+            L.lst(["n%d" % x for x in n["deps"]]) if n["deps"] else "(@nil pkg)"))
+    return "(" + " ".join(out) + " n%d)" % d["root"]
+
+
+def coq_bnmap(items):
+    out = []
+    for k, v in items:
+        if isinstance(v, tuple):
+            out.append(L.pair(L.s(k), "(BDir %s %s)" % (L.s(v[0]), L.B(bool(v[1])))))
+        else:
+            out.append(L.pair(L.s(k), "(BCnt %d)" % v))
+    return L.lst(out) if out else "(@nil (str * bnval))"
+
+
+def coq_ds_raw(items):
+    return L.lst([L.pair(L.s(p), classify_state(s)) for p, s in items]) if items else "(@nil (str * dstate))"
+
+
+PRE_E2E = PRE_CLEAN + """
+Inductive ein :=
+| EDev (s : ostate) (ck : str) (root : pkg)
+| ECleanDev (f : cflags) (s : ostate) (ck : str) (root : pkg) (bn : bnmap) (ds : dirstates) (fs : list str) (ex : list str)
+| ECleanRel (f : cflags) (root : pkg) (bn : bnmap) (ds : dirstates) (fs : list str) (ex : list str).
+Inductive ewant := WDev (s : ostate) | WClean (w : cwant).
+Definition e2e_ok (i : ein) (w : ewant) : bool :=
+  match i, w with
+  | EDev s ck root, WDev s' => ost_same (prime s ck root) (Some s')
+  | ECleanDev f s ck root bn ds fs ex, WClean w' =>
+      match clean_develop (mk_exp ex) f s ck root bn ds fs with
+      | Some (s', r) => cres_ok r w' && ost_same (Some s') (w_db w')
+      | None => false
+      end
+  | ECleanRel f root bn ds fs ex, WClean w' =>
+      match clean_release (mk_exp ex) f root bn ds fs with
+      | Some r => cres_ok r w'
+      | None => false
+      end
+  | _, _ => false
+  end.
+"""
+
+
+def e2e_project(seed, nops, tier):
+    """run one generated project history; returns records (no ctx access: runs in a worker thread)"""
+    import random
+    rng = random.Random(seed)
+    proj = core.scratch_dir("c16e2e")
+    rec = {"seed": seed, "ops": [], "violations": [], "cases": [], "counts": {}, "errors": []}
+
+    def count(k, n=1):
+        rec["counts"][k] = rec["counts"].get(k, 0) + n
+    try:
+        log = os.path.join(proj, "steps.log")
+        spec = e2e_gen_spec(rng)
+        e2e_write(spec, proj, log)
+        clean_since = {"develop": None, "release": None}   # True = mode was built and nothing edited since
+        plan = ["dev"]
+        for _ in range(nops - 1):
+            plan.append(rng.choices(["edit", "dev", "build", "clean", "dev-force"], [0.3, 0.24, 0.12, 0.28, 0.06])[0])
+        history = []
+        i = 0
+        while i < len(plan):
+            op = plan[i]
+            i += 1
+            if op == "edit":
+                spec, what = e2e_edit(rng, spec)
+                e2e_write(spec, proj, log)
+                clean_since = {"develop": False if clean_since["develop"] is not None else None,
+                               "release": False if clean_since["release"] is not None else None}
+                history.append(what)
+                count("e2e:op:" + what)
+                continue
+            if op in ("dev", "build", "dev-force"):
+                mode = "release" if op == "build" else "develop"
+                before = e2e_state(proj)
+                open(log, "w").close()
+                rc, out = e2e_bob(proj, ["build", "root"] if op == "build" else (["dev", "root"] if op == "dev" else ["dev", "-f", "root"]))
+                history.append(op)
+                count("e2e:op:" + op)
+                if rc != 0:
+                    rec["errors"].append({"op": op, "history": list(history), "out": out[-1500:]})
+                    break
+                after = e2e_state(proj)
+                lines = [l for l in open(log).read().split("\n") if l]
+                # prune oracle: a build / package script may only find the marker of its own variant
+                for l in lines:
+                    kind, ident, pwd, found = l.split(" ", 3)
+                    marks = [x for x in found.strip("[]").split() if x.startswith("m-")]
+                    count("e2e:steps-run")
+                    if marks:
+                        count("e2e:incremental-rebuild" if marks == ["m-" + ident] else "e2e:foreign-content")
+                    if any(m != "m-" + ident for m in marks):
+                        rec["violations"].append(("dir-reused-without-prune",
+                                                  "%s step of variant %s started in %s which still held %s" % (kind, ident, pwd, marks),
+                                                  {"part": "e2e", "seed": seed, "history": list(history)}))
+                if mode == "develop":
+                    dirs = {}
+                    for k, d in after["db"][1]:
+                        if d in dirs:
+                            rec["violations"].append(("dev-dir-shared-by-different-keys", "directory %s assigned twice" % d,
+                                                      {"part": "e2e", "seed": seed, "history": list(history)}))
+                        dirs[d] = k
+                    old = dict(before["db"][1])
+                    for k, d in after["db"][1]:
+                        if k in old and old[k] != d and os.path.dirname(old[k]) == os.path.dirname(d):
+                            rec["violations"].append(("dev-dir-changed-for-existing-variant", "%r: %s -> %s" % (k, old[k], d),
+                                                      {"part": "e2e", "seed": seed, "history": list(history)}))
+                    count("e2e:dev-kept", sum(1 for k, d in after["db"][1] if old.get(k) == d))
+                    count("e2e:dev-new", sum(1 for k, d in after["db"][1] if k not in old))
+                    tree = e2e_dump(proj, False)
+                    rec["cases"].append(("(EDev %s %s %s)" % (coq_ostate(*before["db"]), L.by(bytes.fromhex(tree["ck"])), coq_tree_e2e(tree)),
+                                         "(WDev %s)" % coq_ostate(*after["db"]), {"op": "dev", "history": list(history)}))
+                else:
+                    bn = [v[0] for k, v in after["bn"] if isinstance(v, tuple)]
+                    if len(bn) != len(set(bn)):
+                        rec["violations"].append(("release-dir-shared-by-different-variants", "by-name directory assigned twice",
+                                                  {"part": "e2e", "seed": seed, "history": list(history)}))
+                    oldbn = dict((k, v) for k, v in before["bn"] if isinstance(v, tuple))
+                    for k, v in after["bn"]:
+                        if isinstance(v, tuple) and k in oldbn and oldbn[k][0] != v[0]:
+                            rec["violations"].append(("release-dir-changed-for-existing-variant", "%s: %s -> %s" % (k, oldbn[k][0], v[0]),
+                                                      {"part": "e2e", "seed": seed, "history": list(history)}))
+                # nothing to do directly after a clean that followed an up-to-date build of this mode
+                if clean_since[mode] == "cleaned" and lines and op != "dev-force":
+                    rec["violations"].append(("clean-deletes-uptodate-result",
+                                              "after `bob clean` an unchanged project re-ran steps: %r" % lines[:3],
+                                              {"part": "e2e", "seed": seed, "history": list(history)}))
+                clean_since[mode] = True
+                continue
+            # ---- clean
+            mode = rng.choice(["develop", "develop", "release"])
+            flags = {"src": rng.random() < 0.5, "force": rng.random() < 0.3, "dry": rng.random() < 0.3, "verbose": rng.random() < 0.6}
+            argv = ["clean", "--" + mode] + (["-s"] if flags["src"] else []) + (["-f"] if flags["force"] else []) + \
+                   (["--dry-run"] if flags["dry"] else []) + (["-v"] if flags["verbose"] else [])
+            before = e2e_state(proj)
+            srcdirs = sorted({d for d, s in before["ds"] if isinstance(s, dict)} |
+                             {os.path.join(v[0], "workspace") for k, v in before["bn"] if isinstance(v, tuple) and v[1]})
+            srcdirs = [d for d in srcdirs if os.path.exists(os.path.join(proj, d))]
+            tree = e2e_dump(proj, mode == "release", srcdirs)
+            before = e2e_state(proj)
+            tree_before = sorted(listing(proj))
+            rc, out = e2e_bob(proj, argv)
+            history.append(" ".join(argv))
+            count("e2e:op:clean-" + mode)
+            if rc != 0:
+                rec["errors"].append({"op": argv, "history": list(history), "out": out[-1500:]})
+                break
+            after = e2e_state(proj)
+            tree_after = sorted(listing(proj))
+            deleted = sorted(set(before["workspaces"]) - set(after["workspaces"]))
+            count("e2e:clean-deleted", len(deleted))
+            count("e2e:clean-kept", len(after["workspaces"]))
+            rm = [l[3:] for l in out.split("\n") if l.startswith("rm ")]
+            where = {"part": "e2e", "seed": seed, "history": list(history)}
+            if flags["dry"] and tree_before != tree_after:
+                rec["violations"].append(("clean-dry-run-deletes", "bob clean --dry-run changed the workspace", where))
+            if not flags["src"] and any("/src/" in d for d in deleted):
+                rec["violations"].append(("clean-deletes-source-without-s", "source workspace deleted without -s: %r" % deleted, where))
+            if any(d.startswith("work/") for d in deleted) and mode == "develop":
+                rec["violations"].append(("clean-develop-deletes-release-dir", "%r" % deleted, where))
+            if any(d.startswith("dev/") for d in deleted) and mode == "release":
+                rec["violations"].append(("clean-release-deletes-develop-dir", "%r" % deleted, where))
+            if not flags["dry"] and clean_since[mode] is True:
+                clean_since[mode] = "cleaned"
+                if plan[i:i + 1] != ["dev" if mode == "develop" else "build"] and rng.random() < 0.7:
+                    plan.insert(i, "dev" if mode == "develop" else "build")
+            # model
+            fl = "{| cf_src := %s; cf_force := %s; cf_dry := %s |}" % (L.B(flags["src"]), L.B(flags["force"]), L.B(flags["dry"]))
+            want = "(WClean {| w_rm := %s; w_fs := %s; w_ds := %s; w_db := %s |})" % (
+                ("(Some %s)" % coq_strs(rm)) if (flags["dry"] or flags["verbose"]) else "(@None (list str))",
+                coq_strs([d for d in before["fs"] if os.path.exists(os.path.join(proj, d))]), coq_ds_raw(after["ds"]),
+                "(Some %s)" % coq_ostate(*after["db"]) if mode == "develop" else "(@None ostate)")
+            if mode == "develop":
+                cin = "(ECleanDev %s %s %s %s %s %s %s %s)" % (fl, coq_ostate(*before["db"]), L.by(bytes.fromhex(tree["ck"])), coq_tree_e2e(tree),
+                                                              coq_bnmap(before["bn"]), coq_ds_raw(before["ds"]), coq_strs(before["fs"]),
+                                                              coq_strs(tree["expendable"]))
+            else:
+                cin = "(ECleanRel %s %s %s %s %s %s)" % (fl, coq_tree_e2e(tree), coq_bnmap(before["bn"]), coq_ds_raw(before["ds"]),
+                                                        coq_strs(before["fs"]), coq_strs(tree["expendable"]))
+            rec["cases"].append((cin, want, {"op": argv, "history": list(history), "deleted": deleted}))
+        rec["history"] = history
+    except Exception as e:
+        import traceback
+        rec["errors"].append({"exception": traceback.format_exc()[-2000:]})
+    finally:
+        shutil.rmtree(proj, ignore_errors=True)
+    return rec
+
+
 def part_e2e(ctx, extra):
-    pass
+    nproj = ctx.n(7, 60)
+    nops = ctx.n(10, 14)
+    seeds = [c["seed"] for c in extra if c.get("part") == "e2e"] + [ctx.rng.randrange(1 << 30) for _ in range(nproj)]
+    with ThreadPoolExecutor(max_workers=4) as ex:
+        recs = list(ex.map(lambda sd: e2e_project(sd, nops, ctx.tier), seeds))
+    cases, meta = [], []
+    for rec in recs:
+        for k, v in rec["counts"].items():
+            ctx.count(k, v)
+        for e in rec["errors"]:
+            ctx.tie_broken("e2e-run-failed", {"part": "e2e", "seed": rec["seed"], "detail": e})
+        for sig, what, where in rec["violations"]:
+            ctx.violation(sig, what, where)
+        for cin, want, m in rec["cases"]:
+            ctx.evaluated()
+            ctx.nontrivial(("e2e", rec["seed"], len(cases)))
+            cases.append((cin, want))
+            meta.append(dict(m, part="e2e", seed=rec["seed"]))
+        if rec.get("history"):
+            ctx.sample({"part": "e2e", "seed": rec["seed"], "history": rec["history"]}, limit=8)
+    bad, log = coq.run_cases(ctx, ["BobV.C16.Model"], "(fun i => i)", "e2e_ok", cases, preamble=PRE_E2E, tag="e2e", shard=12)
+    if bad is None:
+        ctx.tie_broken("C16 e2e model evaluation failed", log)
+        return
+    ctx.validated(len(cases) - len(bad))
+    for i in bad[:5]:
+        ctx.tie_broken("e2e-correspondence", meta[i])
 
 
 def replay(ctx):
